@@ -24,6 +24,7 @@ RULE = (
     'different, automatic} x inner fraction {1,0.9,0.5} x trajectory layout (2); per scenario a probe '
     'cloud: every site x direction table x radial factor {0,f/2,f-d,f+d,(1+f)/2,1-d,1+d,1.5} plus void '
     'points; variants: a site never visited by any probe, a site structure carrying its own scaled+rotated cell, the caller\'s radius object reused for a second call (unchanged, same answer), states re-read after derived views; evaluation = one probe judged sharply; distinct = distinct (scenario, state-array) outcomes'
+    '; site set CAP3 (spheres just poking through a face, depth along the face normal) and probes along the face normals; automatic radius also with a position listed twice (x and x+1)'
 )
 LEVEL_TEXT = (
     'Bounded-exhaustive enumeration of the listed alphabets (lattice shapes and orientations incl. '
